@@ -314,8 +314,36 @@ FLEET['G11'] = dict(
         ('list', [], 'plain'),
         ('stmt', ['lp', 'list', 'rp'], 'plain'),
         ('list', ['list', 'stmt'], 'plain'),
+        # prefix pair: after 'x' the state both reduces (also under the error symbol) and shifts;
+        # an error after "x y" pops the y-state and exposes a state that REDUCES on the error symbol
+        ('stmt', ['x'], 'plain'),
+        ('stmt', ['x', 'y', 'semi'], 'ctx'),
     ],
     values=['node', 'mnode', 'pnode'],
+)
+
+
+# whitespace characters as terms (meaningful with skip_whitespace(false)); names of non-printable character terms
+FLEET['G12'] = dict(
+    terms=[
+        ('word', T('regex', '[a-z]+', 'word')),
+        ('sp', T('char', ' ')),
+        ('tab', T('char', '\t')),
+        ('del', T('char', '\x7f')),
+        ('bang', T('char', '!')),
+    ],
+    nterms=['text', 'item'],
+    root='text',
+    rules=[
+        ('item', ['word'], 'plain'),
+        ('text', ['item'], 'plain'),
+        ('item', ['bang', 'word'], 'plain'),
+        ('text', ['text', 'sp', 'item'], 'plain'),
+        ('text', ['text', 'tab', 'item'], 'plain'),
+        ('text', ['text', 'del', 'item'], 'ctx'),
+    ],
+    values=['node'],
+    prefer_no_skip_ws=True,
 )
 
 # standalone regex matchers (regex::expr<P>)
